@@ -12,6 +12,7 @@ import mkdata
 import pipeline as P
 import c04ext
 import c04obj
+import c04ties
 from common import dec, req
 
 RULE = (
@@ -364,6 +365,9 @@ def noninterference_case(chk, rng):
 def fdp_search(chk):
     """failing-input search (a search tool only): more cases of the extension kinds with the enlarged budget, then
     the Monte-Carlo FDP of the full pipeline with a memorising learner"""
+    c04ties.search(chk)          # exhaustive small tied rankings (every labeling) on the real tdc: cheap, first
+    if chk.spec_violations:
+        return
     for _ in range(10 * chk.budget_mult):
         c04ext.options_case(chk, chk.rng)
         c04ext.rollup_tool_case(chk, chk.rng)
@@ -440,6 +444,8 @@ def main(chk, args):
     timed("E2E-cli-pipeline", c04ext.pipeline_case, 2 if quick else 40)
     timed("T2r-one-trained-model", c04obj.reset_case, 5 if quick else 100)
     timed("T2c-train-loop", c04obj.trainloop_case, 10 if quick else 300)
+    timed("T4t-tied-ranking-all-labelings", c04ties.ties_case, 50 if quick else 600)
+    timed("T4f-tied-level-files", c04ties.ties_file_case, 3 if quick else 40)
     chk.extra["wall_by_case_kind_s"] = walls
     lc = common.leanchecker("C04") if chk.tier == "thorough" else None
     chk.assumptions += [
@@ -470,7 +476,8 @@ def replay(chk, path):
     print(json.dumps(info, indent=1)[:3000])
     sig, case = str(info.get("signature", "")), info.get("case")
     runner = {"T2x": c04ext.options_case, "T5x": c04ext.rollup_tool_case, "T1x": c04ext.rollup_tool_case,
-              "E2E": c04ext.pipeline_case, "T2r": c04obj.reset_case, "T2c": c04obj.trainloop_case}.get(sig[:3])
+              "E2E": c04ext.pipeline_case, "T2r": c04obj.reset_case, "T2c": c04obj.trainloop_case,
+              "T4t": c04ties.ties_case, "T4f": c04ties.ties_file_case}.get(sig[:3])
     if runner is None or not isinstance(case, dict):
         return 0
     common.build_and_audit("C04")
